@@ -536,6 +536,12 @@ class Recfile(object):
 
         data = numpy.zeros(nrows, dtype=self.dtype)
 
+        if nrows == 0:
+            if split:
+                return split_fields(data)
+            else:
+                return data
+
         self.robj.read_binary_slice(
             data,
             int(arg.start),
@@ -610,26 +616,11 @@ class Recfile(object):
         return result, isrows, isslice
 
     def _process_slice(self, arg):
-        start = arg.start
-        stop = arg.stop
-        step = arg.step
+        if arg.step is not None and arg.step <= 0:
+            raise ValueError("slice step must be positive")
 
-        if step is None:
-            step = 1
-        if start is None:
-            start = 0
-        if stop is None:
-            stop = self.nrows
-        elif stop > self.nrows:
-            stop = self.nrows
-
-        if start < 0:
-            start = self.nrows + start
-            if start < 0:
-                raise IndexError("Index out of bounds")
-
-        if stop < 0:
-            stop = self.nrows + stop
+        # python slice rules for negative and out of range bounds
+        start, stop, step = arg.indices(self.nrows)
 
         if stop < start:
             # will return an empty struct
@@ -638,22 +629,12 @@ class Recfile(object):
         return slice(start, stop, step)
 
     def _slice2rows(self, start, stop, step=None):
-        if start is None:
-            start = 0
-        if stop is None:
-            stop = self.nrows
-        if step is None:
-            step = 1
+        if step is not None and step <= 0:
+            raise ValueError("slice step must be positive")
 
-        tstart = self._fix_range(start)
-        tstop = self._fix_range(stop)
-        # if tstart == 0 and tstop == self.nrows:
-        #    # this is faster: if all fields are also requested, then a
-        #    # single fread will be done
-        #    return None
-        if tstop < tstart:
-            raise ValueError("start is greater than stop in slice")
-        return numpy.arange(tstart, tstop, step, dtype="i8")
+        # python slice rules for negative and out of range bounds
+        start, stop, step = slice(start, stop, step).indices(self.nrows)
+        return numpy.arange(start, stop, step, dtype="i8")
 
     def _fix_range(self, num, isslice=True):
         """
@@ -691,6 +672,9 @@ class Recfile(object):
         # should we do this sort, or assume sorted?
 
         rows2read = numpy.unique(rows2read)
+
+        if rows2read.size == 0:
+            return rows2read
 
         rmin = rows2read[0]
         rmax = rows2read[-1]
